@@ -63,6 +63,14 @@ class RepeatingEventBase(EventBase):
         # start and end time of the fragment (representation timebase)
         seg_start = moof.traf.tfdt.base_media_decode_time
         seg_end = seg_start + representation.segments[mod_segment].duration
+        timing = getattr(representation, '_timing', None)
+        if (timing is not None and timing.mode == 'live' and
+                mod_segment == representation.num_media_segments):
+            # the last segment of each loop lasts until the next loop of
+            # the stream's timing reference starts
+            ref_duration = timing.stream_reference.media_duration_using_timescale(
+                representation.timescale)
+            seg_end += max(0, ref_duration - representation.mediaDuration)
 
         # convert seg_start and seg_end to event timebase
         seg_start = (seg_start * self.timescale) // representation.timescale
